@@ -610,6 +610,7 @@ native_only! {
                 assert!(DROPS[i] == 0, "C10: unwinding out of clone() dropped a component of the SOURCE world");
                 i += 1;
             }
+            assert!(ZDROPS <= ZCLONES, "C10: unwinding out of clone() dropped a zero-sized component that was never constructed");
         }
         // the source world is intact, can be cloned again and dropped
         assert!(world.arch_tok.len() == 3);
@@ -634,6 +635,57 @@ fn panic_at_k(_id: u8) {
         CB_CALLS += 1;
         if CB_CALLS == PANIC_AT {
             panic!("user Clone::clone panics at call k");
+        }
+    }
+}
+
+// The k-th `Drop::drop` really panics while the world is dropped (native only: needs unwinding).
+// Whatever the unwinding does (leak the rest or keep dropping), no component's destructor may be
+// entered twice.
+native_only! {
+    fn c10_native_drop_panics_at_k() {
+        use wt::*;
+        reset();
+        let k = sym::any_u8();
+        sym::assume(k >= 1 && k <= 3);
+        let mut world = WT::with_capacity(WTCapacity { arch_tok: 4 });
+        let mut i = 0;
+        while i < 3 {
+            world.create::<ArchTok>((Tok(i), Zt));
+            i += 1;
+        }
+        unsafe {
+            PANIC_AT = k;
+            CB_CALLS = 0;
+            DROP_ENTERED = [0; 16];
+            ON_DROP = Some(drop_panics_at_k);
+        }
+        let r = std::panic::catch_unwind(std::panic::AssertUnwindSafe(|| drop(world)));
+        unsafe { ON_DROP = None };
+        assert!(r.is_err(), "HARNESS-BOUND: dropping the world did not panic");
+        unsafe {
+            let mut i = 0;
+            while i < 16 {
+                assert!(DROP_ENTERED[i] <= 1, "C10: after a destructor panicked, unwinding out of the world's drop entered a component's destructor a second time");
+                i += 1;
+            }
+        }
+    }
+}
+
+#[cfg(not(kani))]
+static mut DROP_ENTERED: [u8; 16] = [0; 16];
+#[cfg(not(kani))]
+fn drop_panics_at_k(id: u8) {
+    unsafe {
+        CB_CALLS += 1;
+        DROP_ENTERED[id as usize] += 1;
+        if DROP_ENTERED[id as usize] > 1 {
+            // report instead of panicking inside an unwinding destructor (that would abort)
+            return;
+        }
+        if CB_CALLS == PANIC_AT {
+            panic!("user Drop::drop panics at call k");
         }
     }
 }
